@@ -97,8 +97,69 @@ func accessPath(e ast.Expr) (root string, path string, ok bool) {
 	return "", "", false
 }
 
+// names of the package-level variables of a package (file-scope `var` declarations)
+func pkgVars(pi *pkgInfo) map[string]bool {
+	out := map[string]bool{}
+	for _, f := range pi.files {
+		for _, d := range f.Decls {
+			gd, ok := d.(*ast.GenDecl)
+			if !ok || gd.Tok != token.VAR {
+				continue
+			}
+			for _, sp := range gd.Specs {
+				if vs, ok := sp.(*ast.ValueSpec); ok {
+					for _, n := range vs.Names {
+						if n.Name != "_" {
+							out[n.Name] = true
+						}
+					}
+				}
+			}
+		}
+	}
+	return out
+}
+
 func summarize(f *fn) *summary {
 	s := &summary{key: f.key, recvType: recvType(f.decl), direct: map[write]bool{}, all: map[write]bool{}, typed: map[string]bool{}}
+	globals := pkgVars(f.pkg)
+	// names bound inside the function shadow package-level variables
+	locals := map[string]bool{}
+	ast.Inspect(f.decl, func(n ast.Node) bool {
+		switch a := n.(type) {
+		case *ast.AssignStmt:
+			if a.Tok == token.DEFINE {
+				for _, l := range a.Lhs {
+					if id, ok := l.(*ast.Ident); ok {
+						locals[id.Name] = true
+					}
+				}
+			}
+		case *ast.ValueSpec:
+			for _, n := range a.Names {
+				locals[n.Name] = true
+			}
+		case *ast.RangeStmt:
+			if a.Tok == token.DEFINE {
+				for _, kv := range []ast.Expr{a.Key, a.Value} {
+					if id, ok := kv.(*ast.Ident); ok {
+						locals[id.Name] = true
+					}
+				}
+			}
+		case *ast.Field:
+			for _, n := range a.Names {
+				locals[n.Name] = true
+			}
+		}
+		return true
+	})
+	// a write whose root is a package-level variable: shared by every goroutine of the process
+	recordGlobal := func(root string) {
+		if globals[root] && !locals[root] {
+			s.typed["global:"+f.pkg.name+"."+root] = true
+		}
+	}
 	s.exported = ast.IsExported(f.decl.Name.Name)
 	addParam := func(fl *ast.FieldList) {
 		if fl == nil {
@@ -218,6 +279,9 @@ func summarize(f *fn) *summary {
 	}
 	record := func(lhs ast.Expr) {
 		r, p, ok := accessPath(lhs)
+		if ok {
+			recordGlobal(r) // also a plain rebind `global = …`
+		}
 		if !ok || p == "" {
 			return // plain variable rebind, or not an access path
 		}
@@ -264,6 +328,7 @@ func summarize(f *fn) *summary {
 					if len(a.Args) > 0 && (fun.Name == "delete" || fun.Name == "copy") {
 						// delete(m, k) / copy(dst, src) write through their first argument
 						if r, p, ok := accessPath(a.Args[0]); ok {
+							recordGlobal(r)
 							fake := &ast.SelectorExpr{X: ast.NewIdent(r), Sel: ast.NewIdent("x")}
 							_ = fake
 							targets := map[int]bool{}
